@@ -29,6 +29,8 @@ REQUIRED_THEOREMS = [
     "Acn.C04.accepts_beyond_horizon", "Acn.C04.densify_perm", "Acn.C04.updateSchedules_perm",
     "Acn.C04.pilotAt_latest", "Acn.C04.pilotAt_uncovered", "Acn.C04.overlay_refines",
     "Acn.C04.overlay_refines_from", "Acn.C04.applied_eq_spec", "Acn.C04.run_no_indexError",
+    "Acn.C04.runPeriods_eq_runTrips", "Acn.C04.trips_applied_eq_spec", "Acn.C04.step_applied_eq_spec",
+    "Acn.C04.step_no_indexError", "Acn.C04.last_applied_eq_column",
 ]
 BUDGET = {"quick": 700, "thorough": 6000, "search": 4000}
 TRUSTED = ["numpy slice assignment / np.array densification / float conversion of int and numpy values "
@@ -46,8 +48,13 @@ RULE = ("direct: 1-3 stations (registration order not sorted), start queue empty
         "dicts, unknown-station and ragged dicts (and both), infeasible schedules under an aggregate limit; "
         "run: 1-3 stations, 0-4 non-overlapping sessions, extra recompute events, max_recompute in "
         "{None,1,2,3}, a script giving every period a schedule (len 1-6, any subset, empty, beyond the "
-        "horizon, in the last period), occasionally malformed or invalid for the EVSE; exh (thorough): every "
-        "sequence of <=3 submissions over 2 stations, t<=3 non-decreasing, len<=3 (plus empty / ragged / unknown-station dicts), lastTs in {none,4} (per submission for <=2 submissions, per sequence for 3), start width in {1,5}. "
+        "horizon, in the last period), occasionally malformed or invalid for the EVSE, the recording scheduler "
+        "also reads Interface.last_applied_pilot_signals; step: the same scenarios driven through "
+        "Simulator.step() with 1-10 calls, max_recompute in {None,1,2,3,5}; rows of every kind (list, tuple, "
+        "float64/float32/int64/int32 arrays, numpy float/int scalars, 0-d arrays, mixed, length-1 array, "
+        "integers beyond 2^53); exh (thorough): every "
+        "sequence of <=3 submissions over 2 stations, t<=3 non-decreasing, len<=3 (plus empty / ragged / unknown-station dicts), lastTs in {none,4} (per submission for <=2 submissions, per sequence for 3), start width in {1,5}, plus 24 seeded samples of 2500 three-submission "
+        "scenarios with an independent lastTs per submission. "
         "non-trivial = an accepted submission overwrites part of an earlier accepted one, or the matrix has to "
         "grow, or a submission is rejected; distinct by hash of the case")
 
@@ -56,24 +63,45 @@ STATION_POOL = ["S2", "S1", "ca-10", "S0"]
 
 # ------------------------------------------------------------------ rows / schedules
 
+INT_KINDS = ("intarray", "npint", "int32array")
+
+
 def _row(spec):
-    """spec: {"c": list|tuple|array|npscalar|intarray, "v": [numbers]} -> the Python object handed over."""
+    """spec: {"c": kind, "v": [numbers]} -> the Python object handed over as a row of the schedule."""
     c, v = spec["c"], spec["v"]
     if c == "tuple":
         return tuple(v)
-    if c == "array":
+    if c in ("array", "len1array"):
         return np.array(v, dtype=float)
     if c == "intarray":
         return np.array([int(x) for x in v], dtype=np.int64)
+    if c == "int32array":
+        return np.array([int(x) for x in v], dtype=np.int32)
+    if c == "float32array":
+        return np.array(v, dtype=np.float32)
     if c == "npscalar":
         return [np.float64(x) for x in v]
+    if c == "npint":
+        return [np.int64(int(x)) for x in v]
+    if c == "zerod":
+        return [np.array(float(x)) for x in v]           # nested 0-d arrays
+    if c == "mixed":
+        conv = (lambda x: int(x), float, np.float64, lambda x: np.int32(int(x)))
+        return [conv[j % 4](x) for j, x in enumerate(v)]
     return list(v)
 
 
 def _vals(spec):
-    if spec["c"] == "intarray":
-        return [float(int(x)) for x in spec["v"]]
-    return [float(x) for x in spec["v"]]
+    """the doubles the row stands for, computed without numpy's array machinery"""
+    c, v = spec["c"], spec["v"]
+    if c in INT_KINDS:
+        return [float(int(x)) for x in v]
+    if c == "float32array":
+        import struct
+        return [struct.unpack("<f", struct.pack("<f", float(x)))[0] for x in v]
+    if c == "mixed":
+        return [float(int(x)) if j % 4 in (0, 3) else float(x) for j, x in enumerate(v)]
+    return [float(x) for x in v]
 
 
 def _sched_obj(pairs):
@@ -325,7 +353,7 @@ def _exh_total():
     return _EXH_OFFS[-1]
 
 
-def _exh_sched(shape, n, k):
+def _exh_sched(shape, n, k):  # noqa: C901
     base = 10 * (k + 1)
 
     def row(off, m):
@@ -360,19 +388,42 @@ def _exh_scenario(idx):
 
 
 _SLICE_CACHE = {}
+_EXH_FULL = [(sh, n, l) for (sh, n) in _EXH_SHAPES for l in _EXH_LAST]
+_EXH_TS3 = [ts for ts in _EXH_TS if len(ts) == 3]
 
 
-def _exh_slice(lo, hi):
-    if (lo, hi) not in _SLICE_CACHE:
+def _exh_sampled(seed, count):
+    """3-submission scenarios with an independent lastTs per submission (the part of the small scope the
+    enumeration above visits only with one lastTs per sequence): a seeded sample"""
+    import random
+    rng = random.Random(seed * 7919 + 11)
+    out = []
+    for _ in range(count):
+        w0 = rng.choice(([], [4]))
+        ts = rng.choice(_EXH_TS3)
+        ops = []
+        for k, t in enumerate(ts):
+            sh, n, l = rng.choice(_EXH_FULL)
+            ops.append({"t": t, "queue": ([] if l is None else [l]), "sched": _exh_sched(sh, n, k)})
+        out.append({"mode": "direct", "stations": EXH_STATIONS, "limit": None, "start_queue": w0, "ops": ops})
+    return out
+
+
+def _exh_slice(case):
+    key = (case.get("sample"), case["lo"], case["hi"])
+    if key not in _SLICE_CACHE:
         _SLICE_CACHE.clear()
-        _SLICE_CACHE[(lo, hi)] = [_exh_scenario(i) for i in range(lo, hi)]
-    return _SLICE_CACHE[(lo, hi)]
+        if case.get("sample") is not None:
+            _SLICE_CACHE[key] = _exh_sampled(case["sample"], case["hi"] - case["lo"])
+        else:
+            _SLICE_CACHE[key] = [_exh_scenario(i) for i in range(case["lo"], case["hi"])]
+    return _SLICE_CACHE[key]
 
 
 def _run_exh(case):
     sims = {}
     res = []
-    for sc in _exh_slice(case["lo"], case["hi"]):
+    for sc in _exh_slice(case):
         key = tuple(sc["start_queue"])
         if key not in sims:
             sims[key] = _DirectSim(sc["stations"], None, sc["start_queue"])
@@ -420,8 +471,14 @@ def _run_run(case):
             sim = self.interface._simulator
             t = int(sim.iteration)
             pairs = script.get(str(t), [])
+            # what the scheduler sees of the pilots applied in the previous period
+            try:
+                la = sorted([k, float(v)] for k, v in self.interface.last_applied_pilot_signals.items())
+            except Exception as e:  # noqa
+                la = "raised " + I.err_name(e)
+            active = sorted([ev.session_id, ev.station_id, int(ev.arrival)] for ev in sim.get_active_evs())
             self.calls.append({"t": t, "lastTs": sim.event_queue.get_last_timestamp(), "sched": pairs,
-                               "before": _mat(sim.pilot_signals)})
+                               "before": _mat(sim.pilot_signals), "last_applied": la, "active": active})
             return _sched_obj(pairs)
 
     net = _network(stations, case.get("limit"), maxrate=case.get("maxrate"), cls=Net)
@@ -446,17 +503,20 @@ def _run_run(case):
 
 
 def _run_ops(obs):
-    """the periods of the observed run as model operations"""
-    calls = {c["t"]: c for c in obs["calls"]}
+    """the periods of the observed run as model operations (`_li` = index into obs["log"], `_ci` = index
+    into obs["calls"]; the driver ignores these fields)"""
+    calls = {c["t"]: (i, c) for i, c in enumerate(obs["calls"])}
     ops = []
     logged = set()
-    for e in obs["log"]:
-        c = calls.get(e["t"])
+    for li, e in enumerate(obs["log"]):
+        ic = calls.get(e["t"])
         logged.add(e["t"])
-        ops.append({"op": "period", "t": e["t"], "lastTs": e["lastTs"],
-                    "sched": _sched_wire(c["sched"]) if c is not None else None})
+        if ic is not None and "active" in ic[1]:
+            ops.append({"op": "last_applied", "t": e["t"], "lastTs": None, "active": ic[1]["active"], "_ci": ic[0]})
+        ops.append({"op": "period", "t": e["t"], "lastTs": e["lastTs"], "_li": li,
+                    "sched": _sched_wire(ic[1]["sched"]) if ic is not None else None})
     # the period in which the run died (if any): the scheduler may have been called in it
-    for t, c in sorted(calls.items()):
+    for t, (i, c) in sorted(calls.items()):
         if t not in logged:
             ops.append({"op": "submit", "t": t, "lastTs": c["lastTs"], "sched": _sched_wire(c["sched"])})
             if obs["err"] == "InvalidRate":
@@ -470,19 +530,35 @@ def _run_ops(obs):
     return ops
 
 
+def _step_ops(obs):
+    """the loop trips of a step()-driven simulation as model operations"""
+    ops = []
+    li = 0
+    for c in obs["calls"]:
+        for _ in range(c["trips"]):
+            e = obs["log"][li]
+            ops.append({"op": "period", "by": "step", "t": e["t"], "lastTs": e["lastTs"], "_li": li,
+                        "sched": _sched_wire(c["sched"])})
+            li += 1
+        if c["err"] is not None:
+            ops.append({"op": "submit", "t": c["t0"], "lastTs": c["lastTs0"], "sched": _sched_wire(c["sched"]),
+                        "_err": c["err"]})
+    return ops
+
+
 def _req_run(case, obs):
-    ops = _run_ops(obs)
+    ops = _step_ops(obs) if case["mode"] == "step" else _run_ops(obs)
     if not ops:
         return None
     return {"stations": case["stations"], "width": obs["width0"], "ops": ops}
 
 
 def _cmp_run(case, obs, model, out):
-    ops = _run_ops(obs)
+    ops = _step_ops(obs) if case["mode"] == "step" else _run_ops(obs)
     steps = model["steps"]
-    for k, (o, m) in enumerate(zip(ops, steps)):
+    for o, m in zip(ops, steps):
         if o["op"] == "period":
-            e = obs["log"][k]
+            e = obs["log"][o["_li"]]
             if m["err"] is not None:
                 out.append(f"period {e['t']}: model raises {m['err']}, implementation went on")
                 return
@@ -495,10 +571,16 @@ def _cmp_run(case, obs, model, out):
                 out.append(f"period {e['t']}: pilot_signals column impl={e['col']} model={col}")
         elif o["op"] == "submit":
             exp = m["err"]
-            if exp is not None and obs["err"] != exp:
-                out.append(f"period {o['t']}: model raises {exp}, implementation {obs['err']}")
-            if exp is None and obs["err"] in ("KeyError", "InvalidSchedule", "TypeError"):
-                out.append(f"period {o['t']}: implementation raises {obs['err']}, model accepts")
+            got = o.get("_err", obs.get("err"))
+            if exp is not None and got != exp:
+                out.append(f"period {o['t']}: model raises {exp}, implementation {got}")
+            if exp is None and got in ("KeyError", "InvalidSchedule", "TypeError"):
+                out.append(f"period {o['t']}: implementation raises {got}, model accepts")
+        elif o["op"] == "last_applied":
+            c = obs["calls"][o["_ci"]]
+            ml = None if m["last"] is None else sorted([k, b2f(v)] for k, v in m["last"])
+            if ml != c["last_applied"]:
+                out.append(f"period {o['t']}: last_applied_pilot_signals impl={c['last_applied']} model={ml}")
     if steps and not any(o.get("approx") for o in ops):
         _cmp_rows(obs["final"], steps[-1], "final matrix", out)
     elif steps:
@@ -508,6 +590,115 @@ def _cmp_run(case, obs, model, out):
             n = min(len(a), len(b))
             if not all(close(x, y) for x, y in zip(a[:n], b[:n])) or any(x != 0 for x in a[n:]) or any(y != 0 for y in b[n:]):
                 out.append(f"final matrix row {i}: impl={a} model={b}")
+
+
+# ------------------------------------------------------------------ step mode
+
+def _run_step(case):
+    """a simulation driven through the public `Simulator.step(new_schedule)`"""
+    from acnportal.acnsim import Simulator
+    from acnportal.acnsim.network import ChargingNetwork
+    from acnportal.acnsim.events import EventQueue, PluginEvent, RecomputeEvent
+    from acnportal.acnsim.models import EV, Battery
+
+    stations = case["stations"]
+
+    class Net(ChargingNetwork):
+        def post_charging_update(self):
+            sim = self._sim
+            t = sim.iteration
+            w = sim.pilot_signals.shape[1]
+            self.log.append({
+                "t": int(t), "lastTs": sim.event_queue.get_last_timestamp(), "width": int(w),
+                "applied": [float(self._EVSEs[s].current_pilot) for s in self.station_ids],
+                "col": [float(x) for x in sim.pilot_signals[:, t]] if t < w else None,
+            })
+
+    net = _network(stations, case.get("limit"), cls=Net)
+    net.log = []
+    evs = []
+    for s in case["sessions"]:
+        evs.append(PluginEvent(s["arrival"], EV(s["arrival"], s["departure"], 50, s["station"], s["session"],
+                                                 Battery(100, 0, 100))))
+    evs += [RecomputeEvent(int(t)) for t in case.get("recompute", [])]
+    sim = Simulator(net, None, EventQueue(evs), datetime(2020, 1, 1), verbose=False)
+    net._sim = sim
+    mr = case.get("max_recompute")
+    sim.max_recompute = mr
+    if mr is not None:
+        sim._last_schedule_update = 0      # step() subtracts it from the iteration: it must be a number
+    width0 = int(sim.pilot_signals.shape[1])
+    calls = []
+    for c in case["calls"]:
+        if c.get("unstick"):
+            # what a caller has to do to make step() move again once a recompute is pending
+            sim._resolve = False
+            if mr is not None:
+                sim._last_schedule_update = sim._iteration
+        rec = {"sched": c["sched"], "t0": int(sim.iteration), "lastTs0": sim.event_queue.get_last_timestamp(),
+               "queue_empty": bool(sim.event_queue.empty()), "resolve": bool(sim._resolve),
+               "before": _mat(sim.pilot_signals), "err": None, "ret": None}
+        n0 = len(net.log)
+        try:
+            rec["ret"] = bool(sim.step(_sched_obj(c["sched"])))
+        except Exception as e:  # noqa
+            rec["err"] = I.err_name(e)
+        rec["trips"] = len(net.log) - n0
+        rec["after_same"] = _mat(sim.pilot_signals) == rec["before"]
+        del rec["before"]
+        calls.append(rec)
+        if rec["err"] is not None:
+            break
+    return {"width0": width0, "order_ok": list(net.station_ids) == list(stations), "log": net.log,
+            "calls": calls, "final": _mat(sim.pilot_signals), "iteration": int(sim.iteration)}
+
+
+def _oracle_step(case, obs, fails):
+    stations = case["stations"]
+    if not obs["order_ok"]:
+        fails.append({"kind": "station_order_not_registration_order", "detail": ""})
+    subs = []
+    li = 0
+    for ci, c in enumerate(obs["calls"]):
+        exp = _expected_error(stations, c["sched"])
+        where = f"step call {ci} (iteration {c['t0']}, lastTs {c['lastTs0']})"
+        if c["err"] is not None:
+            if c["err"] not in ("KeyError", "InvalidSchedule", "TypeError", "ValueError"):
+                # an exception of the event handling (e.g. StationOccupied), not of the schedule path: not C04
+                break
+            if c["err"] != exp:
+                kind = "wrong_error_class" if exp is not None else "accepted_schedule_raised"
+                fails.append({"kind": kind, "detail": f"{where}: raised {c['err']}, the schedule calls for {exp}"})
+                return
+            if c["trips"] != 0 or not c["after_same"]:
+                fails.append({"kind": "rejected_schedule_changed_state", "detail": where})
+            continue
+        if c["trips"] > 0 and exp is not None:
+            fails.append({"kind": "malformed_schedule_accepted", "detail": f"{where}: {c['sched']} should raise {exp}"})
+        if c["trips"] == 0 and not c["queue_empty"]:
+            # the schedule handed to step() was dropped although the simulation is not over
+            fails.append({"kind": "step_ignored_schedule",
+                          "detail": f"{where}: events are pending, yet step() simulated no period and did not "
+                                    f"apply the schedule (_resolve={c['resolve']}, max_recompute={case.get('max_recompute')})"})
+        for _ in range(c["trips"]):
+            e = obs["log"][li]
+            li += 1
+            subs.append((e["t"], c["sched"]))
+            want = [pilot_at(stations, subs, s, e["t"]) for s in stations]
+            if e["applied"] != want:
+                fails.append({"kind": "applied_pilot_differs_from_spec",
+                              "detail": f"{where}, period {e['t']}: EVSEs received {e['applied']}, the schedules say {want}"})
+                return
+            if e["col"] != want:
+                fails.append({"kind": "pilot_signal_differs_from_spec",
+                              "detail": f"{where}, period {e['t']}: pilot_signals[:, t] = {e['col']}, the schedules say {want}"})
+                return
+    ts = [e["t"] for e in obs["log"]]
+    if ts != list(range(len(ts))):
+        fails.append({"kind": "periods_not_consecutive", "detail": str(ts)})
+    bad = _first_diff(stations, subs, obs["final"])
+    if bad:
+        fails.append({"kind": "pilot_signal_differs_from_spec", "detail": f"after the last step: {bad}"})
 
 
 def _oracle_run(case, obs, fails):
@@ -569,6 +760,22 @@ def _oracle_run(case, obs, fails):
             fails.append({"kind": "pilot_signal_differs_from_spec",
                           "detail": f"period {e['t']}: pilot_signals[:, t] = {e['col']}, the schedules say {want}"})
             return
+    # what the scheduler saw of the previous period's pilots (interface.py: only if iteration - 1 > 0)
+    by_t = {e["t"]: e for e in obs["log"]}
+    for c in calls:
+        if "last_applied" not in c:
+            continue
+        i = c["t"] - 1
+        if i > 0:
+            prev = by_t[i]["applied"]
+            want = sorted([sess, prev[stations.index(st)]] for sess, st, arr in c["active"] if arr <= i)
+        else:
+            want = []
+        if c["last_applied"] != want:
+            fails.append({"kind": "last_applied_differs_from_applied_column",
+                          "detail": f"period {c['t']}: scheduler saw {c['last_applied']}, the EVSEs had received "
+                                    f"{want} in period {i} (active: {c['active']})"})
+            break
     allsubs = [(c["t"], c["sched"]) for c in calls]
     bad = _first_diff(stations, allsubs, obs["final"])
     if bad:
@@ -582,11 +789,19 @@ def _oracle_run(case, obs, fails):
 
 # ------------------------------------------------------------------ generation
 
-_NICE = [0, 0, 6, 8, 16, 32, 13, 24, 7.5, 6.25, 0.1 + 0.2, 31.999, 1e-3, 48, 64, 1e6]
+# 2^24+1 and 123456789 are exact as doubles but not as float32: catches a lossy intermediate dtype
+_NICE = [0, 0, 6, 8, 16, 32, 13, 24, 7.5, 6.25, 0.1 + 0.2, 31.999, 1e-3, 48, 64, 1e6, 16777217, 123456789]
+
+
+_KINDS = ["list", "list", "list", "tuple", "array", "npscalar", "intarray", "npint", "int32array",
+          "float32array", "zerod", "mixed"]
+BIG = 2 ** 53 + 1          # not representable: int -> double must round the same way on both sides
 
 
 def _gen_row(rng, n, nonneg=True, vmax=None):
-    c = rng.choice(["list", "list", "list", "tuple", "array", "npscalar", "intarray"])
+    c = rng.choice(_KINDS)
+    if n == 1 and rng.random() < 0.3:
+        c = "len1array"
     v = []
     for _ in range(n):
         r = rng.random()
@@ -596,11 +811,13 @@ def _gen_row(rng, n, nonneg=True, vmax=None):
             x = rng.randint(0, 40)
         else:
             x = round(rng.uniform(0, 40), rng.choice([1, 3, 12]))
+        if not nonneg and c in ("list", "intarray", "npint") and rng.random() < 0.03:
+            x = rng.choice([BIG, 2 ** 31 + 1, 2 ** 62 + 3, 2 ** 53 - 1])
         if not nonneg and rng.random() < 0.1:
             x = -x
         if vmax is not None:
             x = min(x, vmax)
-        if c == "intarray":
+        if c in INT_KINDS:
             x = int(x)
         v.append(x)
     return {"c": c, "v": v}
@@ -729,18 +946,40 @@ def corpus():
     ]
 
 
-def _exh_cases():
+def _exh_cases(rng):
     total = _exh_total()
     step = 2500
-    return [{"mode": "exh", "lo": lo, "hi": min(total, lo + step)} for lo in range(0, total, step)]
+    out = [{"mode": "exh", "lo": lo, "hi": min(total, lo + step)} for lo in range(0, total, step)]
+    out += [{"mode": "exh", "sample": rng.randrange(10 ** 6), "lo": 0, "hi": step} for _ in range(24)]
+    return out
+
+
+def _gen_step(rng):
+    """a simulation driven through Simulator.step(): a list of calls, each with its own schedule"""
+    base = _gen_run(rng)
+    stations = base["stations"]
+    p_bad = 0.12 if rng.random() < 0.15 else 0.0
+    # most cases "unstick" step() before every call (see _run_step), some leave it to its own devices
+    unstick_all = rng.random() < 0.75
+    calls = []
+    for _ in range(rng.randint(1, 10)):
+        calls.append({"sched": _gen_sched(rng, stations, nonneg=True, p_bad=p_bad, p_empty=0.1),
+                      "unstick": unstick_all or rng.random() < 0.3})
+    # step() handles the events of period t only after the trip of period t-1, so a scenario is in step with
+    # the clock only if nothing happens at time 0: shift everything by one period
+    sessions = [dict(x, arrival=x["arrival"] + 1, departure=x["departure"] + 1) for x in base["sessions"]]
+    recompute = [t + 1 for t in base["recompute"]]
+    return {"mode": "step", "stations": stations, "limit": base["limit"], "sessions": sessions,
+            "recompute": recompute, "max_recompute": rng.choice([None, None, 1, 2, 3, 5]), "calls": calls}
 
 
 def generate(rng, n, tier):
     out = []
     for i in range(n):
-        out.append(_gen_run(rng) if i % 5 in (1, 3) else _gen_direct(rng))
+        j = i % 10
+        out.append(_gen_run(rng) if j in (1, 3, 6, 8) else _gen_step(rng) if j in (4, 9) else _gen_direct(rng))
     if tier == "thorough":
-        out.extend(_exh_cases())
+        out.extend(_exh_cases(rng))
     return out
 
 
@@ -751,6 +990,8 @@ def run_impl(case):
         return _run_direct(case)
     if case["mode"] == "exh":
         return _run_exh(case)
+    if case["mode"] == "step":
+        return _run_step(case)
     return _run_run(case)
 
 
@@ -759,7 +1000,7 @@ def model_request(case, obs):
         return _req_direct(case, obs["width0"])
     if case["mode"] == "exh":
         return {"batch": [_req_direct(sc, o["width0"], brief=True)
-                          for sc, o in zip(_exh_slice(case["lo"], case["hi"]), obs["res"])]}
+                          for sc, o in zip(_exh_slice(case), obs["res"])]}
     return _req_run(case, obs)
 
 
@@ -768,7 +1009,7 @@ def compare(case, obs, model):
     if case["mode"] == "direct":
         _cmp_direct(case, obs, model, out)
     elif case["mode"] == "exh":
-        for k, (sc, o, m) in enumerate(zip(_exh_slice(case["lo"], case["hi"]), obs["res"], model["batch"])):
+        for k, (sc, o, m) in enumerate(zip(_exh_slice(case), obs["res"], model["batch"])):
             _cmp_direct(sc, o, m, out, tag=f"scenario {case['lo'] + k}: ")
             if len(out) > 3:
                 break
@@ -782,10 +1023,12 @@ def oracle(case, obs):
     if case["mode"] == "direct":
         _oracle_direct(case, obs, fails)
     elif case["mode"] == "exh":
-        for k, (sc, o) in enumerate(zip(_exh_slice(case["lo"], case["hi"]), obs["res"])):
+        for k, (sc, o) in enumerate(zip(_exh_slice(case), obs["res"])):
             _oracle_direct(sc, o, fails, tag=f"scenario {case['lo'] + k}: ")
             if fails:
                 break
+    elif case["mode"] == "step":
+        _oracle_step(case, obs, fails)
     else:
         _oracle_run(case, obs, fails)
     return fails
@@ -795,7 +1038,7 @@ def shrink(case, kind):
     """an exhaustive slice shrinks to its first failing scenario; a direct case to its shortest failing prefix
     with single operations dropped"""
     if case["mode"] == "exh":
-        for sc in _exh_slice(case["lo"], case["hi"]):
+        for sc in _exh_slice(case):
             if any(f["kind"] == kind for f in oracle(sc, run_impl(sc))):
                 return shrink(sc, kind)
         return case
@@ -806,6 +1049,18 @@ def shrink(case, kind):
             changed = False
             for i in range(len(cur["ops"])):
                 cand = dict(cur, ops=cur["ops"][:i] + cur["ops"][i + 1:])
+                if any(f["kind"] == kind for f in oracle(cand, run_impl(cand))):
+                    cur = cand
+                    changed = True
+                    break
+        return cur
+    if case["mode"] == "step":
+        cur = case
+        changed = True
+        while changed and len(cur["calls"]) > 1:
+            changed = False
+            for i in reversed(range(len(cur["calls"]))):
+                cand = dict(cur, calls=cur["calls"][:i] + cur["calls"][i + 1:])
                 if any(f["kind"] == kind for f in oracle(cand, run_impl(cand))):
                     cur = cand
                     changed = True
@@ -863,7 +1118,28 @@ def features(case, obs):
         _direct_feats(case, obs, out)
     elif case["mode"] == "exh":
         out.append(f"exh_scenarios:{obs['n']}")
+    elif case["mode"] == "step":
+        out.append("step_max_recompute:" + str(case.get("max_recompute")))
+        out.append(f"step_trips_total:{min(len(obs['log']), 12)}")
+        for c in obs["calls"]:
+            out.append(f"step_trips:{min(c['trips'], 4)}")
+            if c["err"]:
+                out.append("step_err:" + c["err"])
+            if c["trips"] == 0 and not c["queue_empty"]:
+                out.append("step_noop_with_pending_events")
+            if c["ret"]:
+                out.append("step_returned_done")
+        if obs["final"] and len(obs["final"][0]) > obs["width0"]:
+            out.append("grow")
+        if any(e["applied"] != [0.0] * len(e["applied"]) for e in obs["log"]):
+            out.append("nonzero_pilots_applied")
     else:
+        for c in obs["calls"]:
+            la = c.get("last_applied")
+            if isinstance(la, list):
+                out.append("last_applied:" + ("empty_early" if c["t"] - 1 <= 0 else "nonempty" if la else "empty"))
+            for _, r in c["sched"]:
+                out.append("row:" + r["c"])
         out.append("max_recompute:" + str(case.get("max_recompute")))
         out.append("run_err:" + str(obs["err"]))
         out.append(f"periods:{min(len(obs['log']), 12)}")
@@ -888,6 +1164,8 @@ def features(case, obs):
 def nontrivial(case, obs):
     if case["mode"] == "exh":
         return True
+    if case["mode"] == "step":
+        return len(obs["log"]) >= 2 or any(c["err"] for c in obs["calls"])
     f = features(case, obs)
     return any(x in f for x in ("overwrites_earlier", "grow")) or any(x.startswith("err:") or
                                                                       (x.startswith("run_err:") and x != "run_err:None") for x in f) \
